@@ -5970,6 +5970,15 @@ class CodegenCtx:
                         contents.add(f"// allocate space for {out_expr.name}")
                         contents.add(f"state->c.{out_expr.name} = malloc({out_expr.str_size});")
 
+            # A terminated string is terminated at its length from the start, also when nothing has been stored in it yet
+            for out_expr in self.state_object_spec:
+                if out_expr.type != OutputStorageType.STR or out_expr.default_value is not None or not out_expr.str_null:
+                    continue
+                if ProgramData.do(ProgramFlag.ALLOCATE_STR_SPACE_DYNAMIC_ON_DEMAND):
+                    continue # no buffer yet
+                contents.add(f"// terminate {out_expr.name}")
+                contents.add(f"state->c.{out_expr.name}[0] = 0;")
+
             # Run any start actions
             if self.start_actions:
                 contents.add("// run start actions")
